@@ -64,3 +64,24 @@ prop("C03", shards=16, fuzz=[("FuzzC03", 120)],
      level_note="Trusted: harness/ref/nbt strict reader. Inputs whose reachable declared length exceeds 2^20 are excluded and counted "
                 "(allocation size is not part of the statement). A lone 0x00 (TAG_End, the 'no NBT' marker) may be accepted. An empty "
                 "list may carry any element-type byte (vanilla does not look it up either).")
+
+prop("C04", shards=16, fuzz=[("FuzzC04", 120)],
+     technique="rapid property-based testing: round trip through an independent NBT reader, grammar-directed text generation with known denotation, exhaustive prefixes and mutations of texts; native go fuzzing in the thorough tier",
+     rule="(1) generated trees with finite floats -> reference bytes -> go-mc text (StringifiedMessage at root / in a field, "
+          "RawMessage.String) -> go-mc parser -> reference reader: identical tree (floats by bits, empty list element tag ignored). "
+          "(2) generated (tree, layout) printed by the harness' own SNBT printer (whitespace incl. tab/CR/LF anywhere between tokens, "
+          "'single'/\"double\"/unquoted strings and keys, escapes \\\\ and \\quote, suffix letters in either case, bare integers = Int, bare "
+          "digits.digits = Double, [B; [I; [L; arrays, nested lists, lists of arrays/compounds): parser output must decode to the "
+          "tree and TagType() must equal the root tag. (3) for every generated text: EVERY strict prefix, each closing "
+          "bracket/brace/quote deleted, two texts joined by ' ', LF, ',' or nothing, trailing junk, single-byte substitutions, raw "
+          "bytes: never panics; nil error => well-formed output whose root tag == TagType(); texts a bracket/quote balance "
+          "recogniser proves malformed under any reading (unterminated container/quote, stray closer, no value, second top-level "
+          "value) must be rejected. Non-trivial: (1) tree has a string needing quotes / float / array / nested list / key needing "
+          "quotes; (2) layout uses >= 2 of {whitespace, quoting variety, lowercase suffix, bare number}; (3) text differs from the "
+          "valid one. Distinct: hash of case / text.",
+     level_text="Sampled trees and layouts with exhaustive inner enumeration of prefixes; coverage-guided fuzzing of the parser in "
+                "the thorough tier.",
+     level_note="Trusted: harness/ref/nbt, the printer in harness/gen/snbt.go (its output's denotation is known by construction), "
+                "harness/ref/snbt.Malformed. Not generated because readings differ between Minecraft versions or are not claimed: "
+                "bare true/false, .5 / 5., exponents, \\n-style escapes, '[B ;' with a space, unquoted tokens starting with a digit or "
+                "sign (values and keys), integers with leading zeros, non-finite floats.")
